@@ -203,4 +203,113 @@ theorem a195a : T.action 195 31 = some (.reduce 161) := by decide
 theorem a195o : T.action 195 32 = some (.reduce 161) := by decide
 theorem a8a' : T.action 8 31 = some (.reduce 156) := by decide
 
+/-! entries for ASSIGNMENT_WORD (terminal 25) and state 33 -/
+theorem symAW : TokType.ASSIGNMENT_WORD.sym = 25 := by decide
+theorem d33 : T.dflt 33 = none := by decide
+theorem p52 : T.prods[52]? = some (63, [25]) := by decide
+theorem f52 : Gen.prodFuncs.getD 52 "" = "p_simple_command_element" := by decide
+theorem a0A : T.action 0 25 = some (.shift 33) := by decide
+theorem a61A : T.action 61 25 = some (.shift 33) := by decide
+theorem a134A : T.action 134 25 = some (.shift 33) := by decide
+theorem a135A : T.action 135 25 = some (.shift 33) := by decide
+theorem a136A : T.action 136 25 = some (.shift 33) := by decide
+theorem a13A : T.action 13 25 = some (.shift 33) := by decide
+theorem a33w : T.action 33 24 = some (.reduce 52) := by decide
+theorem a33A : T.action 33 25 = some (.reduce 52) := by decide
+theorem a33n : T.action 33 55 = some (.reduce 52) := by decide
+theorem a33s : T.action 33 53 = some (.reduce 52) := by decide
+theorem a33b : T.action 33 52 = some (.reduce 52) := by decide
+theorem a33a : T.action 33 31 = some (.reduce 52) := by decide
+theorem a33o : T.action 33 32 = some (.reduce 52) := by decide
+theorem a29A : T.action 29 25 = some (.reduce 51) := by decide
+theorem a17A : T.action 17 25 = some (.reduce 56) := by decide
+theorem a75A : T.action 75 25 = some (.reduce 51) := by decide
+theorem a74A : T.action 74 25 = some (.reduce 57) := by decide
+theorem a62A : T.action 62 25 = some (.reduce 167) := by decide
+theorem a63A : T.action 63 25 = some (.reduce 167) := by decide
+theorem a64A : T.action 64 25 = some (.reduce 167) := by decide
+theorem a81A : T.action 81 25 = some (.reduce 146) := by decide
+
+/-! redirections `>` (57: 46, 118, p13), `<` (56: 47, 119, p14), `>>` (33: 48, 120, p19); state 34, p53 -/
+theorem symGT : TokType.GREATER.sym = 57 := by decide
+theorem symLT : TokType.LESS.sym = 56 := by decide
+theorem symGG : TokType.GREATER_GREATER.sym = 33 := by decide
+theorem g13_62 : T.goto 13 62 = some 34 := by decide
+theorem d34 : T.dflt 34 = none := by decide
+theorem p53 : T.prods[53]? = some (63, [62]) := by decide
+theorem f53 : Gen.prodFuncs.getD 53 "" = "p_simple_command_element" := by decide
+theorem a13r57 : T.action 13 57 = some (.shift 46) := by decide
+theorem d46 : T.dflt 46 = none := by decide
+theorem d118 : T.dflt 118 = none := by decide
+theorem a46w : T.action 46 24 = some (.shift 118) := by decide
+theorem p13 : T.prods[13]? = some (62, [57, 24]) := by decide
+theorem f13 : Gen.prodFuncs.getD 13 "" = "p_redirection" := by decide
+theorem a118w : T.action 118 24 = some (.reduce 13) := by decide
+theorem a118A : T.action 118 25 = some (.reduce 13) := by decide
+theorem a118g : T.action 118 57 = some (.reduce 13) := by decide
+theorem a118l : T.action 118 56 = some (.reduce 13) := by decide
+theorem a118G : T.action 118 33 = some (.reduce 13) := by decide
+theorem a118n : T.action 118 55 = some (.reduce 13) := by decide
+theorem a118s : T.action 118 53 = some (.reduce 13) := by decide
+theorem a118b : T.action 118 52 = some (.reduce 13) := by decide
+theorem a118a : T.action 118 31 = some (.reduce 13) := by decide
+theorem a118o : T.action 118 32 = some (.reduce 13) := by decide
+theorem a13r56 : T.action 13 56 = some (.shift 47) := by decide
+theorem d47 : T.dflt 47 = none := by decide
+theorem d119 : T.dflt 119 = none := by decide
+theorem a47w : T.action 47 24 = some (.shift 119) := by decide
+theorem p14 : T.prods[14]? = some (62, [56, 24]) := by decide
+theorem f14 : Gen.prodFuncs.getD 14 "" = "p_redirection" := by decide
+theorem a119w : T.action 119 24 = some (.reduce 14) := by decide
+theorem a119A : T.action 119 25 = some (.reduce 14) := by decide
+theorem a119g : T.action 119 57 = some (.reduce 14) := by decide
+theorem a119l : T.action 119 56 = some (.reduce 14) := by decide
+theorem a119G : T.action 119 33 = some (.reduce 14) := by decide
+theorem a119n : T.action 119 55 = some (.reduce 14) := by decide
+theorem a119s : T.action 119 53 = some (.reduce 14) := by decide
+theorem a119b : T.action 119 52 = some (.reduce 14) := by decide
+theorem a119a : T.action 119 31 = some (.reduce 14) := by decide
+theorem a119o : T.action 119 32 = some (.reduce 14) := by decide
+theorem a13r33 : T.action 13 33 = some (.shift 48) := by decide
+theorem d48 : T.dflt 48 = none := by decide
+theorem d120 : T.dflt 120 = none := by decide
+theorem a48w : T.action 48 24 = some (.shift 120) := by decide
+theorem p19 : T.prods[19]? = some (62, [33, 24]) := by decide
+theorem f19 : Gen.prodFuncs.getD 19 "" = "p_redirection" := by decide
+theorem a120w : T.action 120 24 = some (.reduce 19) := by decide
+theorem a120A : T.action 120 25 = some (.reduce 19) := by decide
+theorem a120g : T.action 120 57 = some (.reduce 19) := by decide
+theorem a120l : T.action 120 56 = some (.reduce 19) := by decide
+theorem a120G : T.action 120 33 = some (.reduce 19) := by decide
+theorem a120n : T.action 120 55 = some (.reduce 19) := by decide
+theorem a120s : T.action 120 53 = some (.reduce 19) := by decide
+theorem a120b : T.action 120 52 = some (.reduce 19) := by decide
+theorem a120a : T.action 120 31 = some (.reduce 19) := by decide
+theorem a120o : T.action 120 32 = some (.reduce 19) := by decide
+theorem a34w : T.action 34 24 = some (.reduce 53) := by decide
+theorem a34A : T.action 34 25 = some (.reduce 53) := by decide
+theorem a34g : T.action 34 57 = some (.reduce 53) := by decide
+theorem a34l : T.action 34 56 = some (.reduce 53) := by decide
+theorem a34G : T.action 34 33 = some (.reduce 53) := by decide
+theorem a34n : T.action 34 55 = some (.reduce 53) := by decide
+theorem a34s : T.action 34 53 = some (.reduce 53) := by decide
+theorem a34b : T.action 34 52 = some (.reduce 53) := by decide
+theorem a34a : T.action 34 31 = some (.reduce 53) := by decide
+theorem a34o : T.action 34 32 = some (.reduce 53) := by decide
+theorem a29g : T.action 29 57 = some (.reduce 51) := by decide
+theorem a17g : T.action 17 57 = some (.reduce 56) := by decide
+theorem a75g : T.action 75 57 = some (.reduce 51) := by decide
+theorem a74g : T.action 74 57 = some (.reduce 57) := by decide
+theorem a33g : T.action 33 57 = some (.reduce 52) := by decide
+theorem a29l : T.action 29 56 = some (.reduce 51) := by decide
+theorem a17l : T.action 17 56 = some (.reduce 56) := by decide
+theorem a75l : T.action 75 56 = some (.reduce 51) := by decide
+theorem a74l : T.action 74 56 = some (.reduce 57) := by decide
+theorem a33l : T.action 33 56 = some (.reduce 52) := by decide
+theorem a29G : T.action 29 33 = some (.reduce 51) := by decide
+theorem a17G : T.action 17 33 = some (.reduce 56) := by decide
+theorem a75G : T.action 75 33 = some (.reduce 51) := by decide
+theorem a74G : T.action 74 33 = some (.reduce 57) := by decide
+theorem a33G : T.action 33 33 = some (.reduce 52) := by decide
+
 end Bashlex.C02.Tab
